@@ -23,7 +23,9 @@ import (
 	"gorm.io/gorm/logger"
 	"gorm.io/gorm/utils/tests"
 
+	"verifharness/gdb"
 	"verifharness/lib"
+	"verifharness/recdrv"
 )
 
 type T struct {
@@ -62,20 +64,23 @@ func open() *gorm.DB {
 
 // ---- input ----
 type Op struct {
-	K    string  `json:"k"`
-	Xs   []int64 `json:"xs,omitempty"`
-	Cap  int     `json:"cap,omitempty"`
-	More []int64 `json:"more,omitempty"`
-	N    int64   `json:"n,omitempty"`
-	Re   bool    `json:"re,omitempty"`
-	Nil  bool    `json:"nil,omitempty"`
-	Uref int     `json:"uref,omitempty"` // >0: the caller passes shared slice number uref (same backing array in every op naming it)
-	H    int     `json:"h,omitempty"`    // where_group: handle passed as the group condition
+	K     string   `json:"k"`
+	Xs    []int64  `json:"xs,omitempty"`
+	Cap   int      `json:"cap,omitempty"`
+	More  []int64  `json:"more,omitempty"`
+	N     int64    `json:"n,omitempty"`
+	Re    bool     `json:"re,omitempty"`
+	Nil   bool     `json:"nil,omitempty"`
+	Uref  int      `json:"uref,omitempty"`  // >0: the caller passes shared slice number uref (same backing array in every op naming it)
+	H     int      `json:"h,omitempty"`     // where_group: handle passed as the group condition
+	Names []string `json:"names,omitempty"` // x_* operations (executed stream): column / field / table / model names
 }
 type Fin struct {
-	K   string `json:"k"` // find | first | take | update | delete
-	Col int64  `json:"col,omitempty"`
-	V   int64  `json:"v,omitempty"`
+	K    string `json:"k"` // find | first | take | update | delete | x_find x_first x_take x_count x_pluck x_scan
+	Col  int64  `json:"col,omitempty"`
+	V    int64  `json:"v,omitempty"`
+	M    string `json:"m,omitempty"`    // x_*: destination model T | U | map
+	Name string `json:"name,omitempty"` // x_pluck: column
 }
 type Step struct {
 	K    string `json:"k"` // derive | sess | finish | abandon
@@ -86,6 +91,7 @@ type Step struct {
 }
 type Input struct {
 	Steps []Step `json:"steps"`
+	Exec  bool   `json:"exec,omitempty"` // run on real SQLite (not DryRun); observed = driver statements + results; outside the Coq model
 }
 
 type FinObs struct {
@@ -112,6 +118,218 @@ type HObs struct {
 type Obs struct {
 	Fins  []FinObs `json:"fins"`
 	Final []HObs   `json:"final"`
+}
+
+// ---- executed stream: two models whose Go field K4 maps to different columns ----
+type U struct {
+	ID int64 `gorm:"primaryKey"`
+	C1 int64
+	C2 int64
+	C3 int64
+	K4 int64 `gorm:"column:u5"`
+}
+type TX struct { // table "ts" of the executed stream
+	ID int64 `gorm:"primaryKey"`
+	C1 int64
+	C2 int64
+	C3 int64
+	K4 int64
+}
+
+func (TX) TableName() string { return "ts" }
+func (U) TableName() string  { return "us" }
+
+func openExec() (*gorm.DB, *recdrv.Recorder) {
+	db, rec, _, err := gdb.Open(gdb.Opt{Config: &gorm.Config{SkipDefaultTransaction: true, Logger: logger.Discard}})
+	lib.Must(err)
+	lib.Must(db.AutoMigrate(&TX{}, &U{}))
+	var ts []TX
+	var us []U
+	for i := int64(1); i <= 6; i++ {
+		ts = append(ts, TX{ID: i, C1: i % 3, C2: 7 - i, C3: i * 2, K4: 100 + i})
+		us = append(us, U{ID: i + 10, C1: i % 2, C2: i, C3: 13 - i, K4: 200 + i})
+	}
+	lib.Must(db.Create(&ts).Error)
+	lib.Must(db.Create(&us).Error)
+	rec.Reset()
+	return db, rec
+}
+
+func applyX(db *gorm.DB, op *Op) *gorm.DB {
+	nm := func(i int) string {
+		if i < len(op.Names) {
+			return op.Names[i]
+		}
+		return "c1"
+	}
+	switch op.K {
+	case "x_where":
+		return db.Where(nm(0)+" >= ?", op.N)
+	case "x_or":
+		return db.Or(nm(0)+" = ?", op.N)
+	case "x_not":
+		return db.Not(nm(0)+" = ?", op.N)
+	case "x_order":
+		if op.Re {
+			return db.Order(nm(0) + " desc")
+		}
+		return db.Order(nm(0))
+	case "x_group":
+		return db.Group(nm(0))
+	case "x_having":
+		return db.Having("count(*) >= ?", op.N)
+	case "x_select":
+		args := []interface{}{}
+		for _, n := range op.Names[1:] {
+			args = append(args, n)
+		}
+		return db.Select(nm(0), args...)
+	case "x_omit":
+		return db.Omit(op.Names...)
+	case "x_distinct":
+		args := []interface{}{}
+		for _, n := range op.Names {
+			args = append(args, n)
+		}
+		return db.Distinct(args...)
+	case "x_table":
+		return db.Table(nm(0))
+	case "x_model":
+		if nm(0) == "U" {
+			return db.Model(&U{})
+		}
+		return db.Model(&TX{})
+	case "x_scopes":
+		n := op.N
+		return db.Scopes(func(d *gorm.DB) *gorm.DB { return d.Where("c3 <= ?", n) })
+	case "limit":
+		return db.Limit(int(op.N))
+	case "offset":
+		return db.Offset(int(op.N))
+	case "unscoped":
+		return db.Unscoped()
+	}
+	panic("unknown x op " + op.K)
+}
+
+// applyFinX runs a reading finisher for real and returns the handle and a rendering of what it loaded
+func applyFinX(db *gorm.DB, f *Fin) (*gorm.DB, string) {
+	switch f.K {
+	case "x_find":
+		switch f.M {
+		case "U":
+			var d []U
+			tx := db.Find(&d)
+			return tx, fmt.Sprint(d)
+		case "map":
+			var d []map[string]interface{}
+			tx := db.Find(&d)
+			return tx, fmt.Sprint(d)
+		}
+		var d []TX
+		tx := db.Find(&d)
+		return tx, fmt.Sprint(d)
+	case "x_first", "x_take":
+		fn := func(tx *gorm.DB, dest interface{}) *gorm.DB {
+			if f.K == "x_first" {
+				return tx.First(dest)
+			}
+			return tx.Take(dest)
+		}
+		if f.M == "U" {
+			var d U
+			tx := fn(db, &d)
+			return tx, fmt.Sprint(d)
+		}
+		var d TX
+		tx := fn(db, &d)
+		return tx, fmt.Sprint(d)
+	case "x_count":
+		var n int64
+		tx := db.Count(&n)
+		return tx, fmt.Sprint(n)
+	case "x_pluck":
+		var d []int64
+		tx := db.Pluck(f.Name, &d)
+		return tx, fmt.Sprint(d)
+	case "x_scan":
+		if f.M == "U" {
+			var d []U
+			tx := db.Scan(&d)
+			return tx, fmt.Sprint(d)
+		}
+		var d []TX
+		tx := db.Scan(&d)
+		return tx, fmt.Sprint(d)
+	}
+	panic("unknown x finisher " + f.K)
+}
+
+func drain(rec *recdrv.Recorder) string {
+	var sb strings.Builder
+	for _, e := range rec.Snapshot() {
+		switch e.Kind {
+		case "query", "exec", "stmt_query", "stmt_exec", "prepare":
+			fmt.Fprintf(&sb, "%s %s %v; ", e.Kind, e.Query, e.Args)
+		}
+	}
+	rec.Reset()
+	return sb.String()
+}
+
+// runExec: the executed stream. Observed per finisher: the statements that reached the driver, what
+// was loaded, RowsAffected and the error - in the shared history and replayed alone on a fresh database.
+func runExec(in Input) Obs {
+	var o Obs
+	e := &env{}
+	db0, rec := openExec()
+	handles := []*gorm.DB{db0}
+	paths := [][]Step{nil}
+	for i, st := range in.Steps {
+		p := st.P
+		if p < 0 || p >= len(handles) {
+			p = 0
+		}
+		parent := handles[p]
+		switch st.K {
+		case "derive":
+			handles = append(handles, applyX(parent, st.Op))
+			paths = append(paths, append(append([]Step(nil), paths[p]...), st))
+		case "sess":
+			handles = append(handles, applySess(parent, st.Sess))
+			paths = append(paths, append(append([]Step(nil), paths[p]...), st))
+		case "abandon":
+			handles = append(handles, parent)
+			paths = append(paths, paths[p])
+		case "finish":
+			rec.Reset()
+			tx, res := applyFinX(parent, st.Fin)
+			fo := FinObs{Step: i, SQL: drain(rec) + "=> " + res + fmt.Sprintf(" ra=%d", tx.RowsAffected), Err: errStr(tx.Error)}
+			handles = append(handles, tx)
+			paths = append(paths, append(append([]Step(nil), paths[p]...), st))
+			cur, arec := openExec()
+			for _, ps := range paths[p] {
+				switch ps.K {
+				case "derive":
+					cur = applyX(cur, ps.Op)
+				case "sess":
+					cur = applySess(cur, ps.Sess)
+				}
+			}
+			arec.Reset()
+			atx, ares := applyFinX(cur, st.Fin)
+			fo.ASQL, fo.AErr = drain(arec)+"=> "+ares+fmt.Sprintf(" ra=%d", atx.RowsAffected), errStr(atx.Error)
+			if sq, err := cur.DB(); err == nil {
+				sq.Close()
+			}
+			o.Fins = append(o.Fins, fo)
+		}
+	}
+	_ = e
+	if sq, err := db0.DB(); err == nil {
+		sq.Close()
+	}
+	return o
 }
 
 // ---- running one operation on real gorm ----
@@ -349,11 +567,15 @@ func toInts(vs []interface{}) []int64 {
 	}
 	return out
 }
+
+var ptrRe = regexp.MustCompile(`0x[0-9a-f]+`)
+
+// errStr: the error text, addresses canonicalised (gorm prints the destination pointer of Count)
 func errStr(err error) string {
 	if err == nil {
 		return ""
 	}
-	return err.Error()
+	return ptrRe.ReplaceAllString(err.Error(), "0xPTR")
 }
 
 // ---- reading the aliasing structure ----
@@ -594,6 +816,9 @@ func gHObs(h HObs) string {
 	return lib.App("mk_hobs", lib.ListOf(h.Sl, gSl), lib.Bool(h.Distinct), lib.Bool(h.Unscoped), lib.Z(h.Table))
 }
 func inModel(in Input) bool {
+	if in.Exec {
+		return false
+	}
 	for _, s := range in.Steps {
 		if s.K == "derive" && s.Op.K == "where_group" {
 			return false
@@ -602,6 +827,9 @@ func inModel(in Input) bool {
 	return true
 }
 func term(in Input, o Obs) string {
+	if in.Exec {
+		return lib.App("mk_case", "false", "[]", lib.ListOf(o.Fins, gFinObs), "[]")
+	}
 	return lib.App("mk_case", lib.Bool(inModel(in)), lib.ListOf(in.Steps, gStep), lib.ListOf(o.Fins, gFinObs), lib.ListOf(o.Final, gHObs))
 }
 
@@ -1009,16 +1237,137 @@ func genPattern(r *lib.Rng) Input {
 	return in
 }
 
+// genExec: the executed stream. A handle that carries state (conditions, Order, Group, Select by
+// Go field name or column, Omit, Distinct, Limit, scopes, Model/Table) is used directly by reading
+// finishers (Find/First/Take/Count/Pluck/Scan into two model types and maps) and as the start of
+// further chains, in arbitrary order.
+func genExec(r *lib.Rng) Input {
+	in := Input{Exec: true}
+	push := func(s Step) int { in.Steps = append(in.Steps, s); return len(in.Steps) }
+	col := func() string { return lib.Pick(r, []string{"c1", "c2", "c3"}) }
+	xop := func() *Op {
+		switch r.Intn(16) {
+		case 0, 1:
+			return &Op{K: "x_where", Names: []string{col()}, N: int64(r.Range(0, 6))}
+		case 2:
+			return &Op{K: "x_or", Names: []string{col()}, N: int64(r.Range(0, 6))}
+		case 3:
+			return &Op{K: "x_not", Names: []string{col()}, N: int64(r.Range(0, 6))}
+		case 4, 5:
+			return &Op{K: "x_order", Names: []string{col()}, Re: r.Bool()}
+		case 6:
+			return &Op{K: "x_group", Names: []string{col()}}
+		case 7:
+			return &Op{K: "x_having", N: int64(r.Range(1, 2))}
+		case 8, 9:
+			// Go field names (K4 is column k4 in ts, u5 in us) or column names
+			n := lib.Pick(r, [][]string{{"K4"}, {"K4", "C1"}, {"ID", "K4"}, {"c1"}, {"C2", "c3"}, {"id", "c2"}})
+			return &Op{K: "x_select", Names: n}
+		case 10:
+			return &Op{K: "x_omit", Names: lib.Pick(r, [][]string{{"C1"}, {"K4"}, {"C2", "K4"}})}
+		case 11:
+			return &Op{K: "x_distinct", Names: lib.Pick(r, [][]string{{}, {"c1"}, {"K4"}})}
+		case 12:
+			return &Op{K: "limit", N: int64(lib.Pick(r, []int{-1, 1, 2, 3, 5}))}
+		case 13:
+			return &Op{K: "offset", N: int64(lib.Pick(r, []int{-1, 1, 2}))}
+		case 14:
+			return &Op{K: "x_scopes", N: int64(r.Range(4, 12))}
+		}
+		if r.Bool() {
+			return &Op{K: "x_table", Names: []string{lib.Pick(r, []string{"ts", "us"})}}
+		}
+		return &Op{K: "x_model", Names: []string{lib.Pick(r, []string{"T", "U"})}}
+	}
+	xfin := func() *Fin {
+		m := lib.Pick(r, []string{"T", "U", "T", "U", "map"})
+		switch r.Intn(10) {
+		case 0, 1, 2:
+			return &Fin{K: "x_find", M: m}
+		case 3:
+			if m == "map" {
+				m = "T"
+			}
+			return &Fin{K: "x_first", M: m}
+		case 4:
+			if m == "map" {
+				m = "U"
+			}
+			return &Fin{K: "x_take", M: m}
+		case 5, 6, 7:
+			return &Fin{K: "x_count"}
+		case 8:
+			return &Fin{K: "x_pluck", Name: col()}
+		}
+		if m == "map" {
+			m = "T"
+		}
+		return &Fin{K: "x_scan", M: m}
+	}
+	// the handle
+	cur := 0
+	if r.Chance(1, 4) {
+		// one handle used for two model types: Select by Go field name, no Model on the handle
+		if r.Bool() {
+			cur = push(Step{K: "derive", P: cur, Op: &Op{K: "x_where", Names: []string{col()}, N: int64(r.Range(0, 3))}})
+		}
+		cur = push(Step{K: "derive", P: cur, Op: &Op{K: "x_select", Names: lib.Pick(r, [][]string{{"K4"}, {"K4", "C1"}, {"ID", "K4"}, {"C2", "K4"}})}})
+		if r.Bool() {
+			cur = push(Step{K: "derive", P: cur, Op: &Op{K: "x_order", Names: []string{col()}, Re: r.Bool()}})
+		}
+		h := push(Step{K: "sess", P: cur, Sess: lib.Pick(r, []string{"plain", "plain", "ctx", "debug"})})
+		for k := r.Range(3, 7); k > 0; k-- {
+			m := lib.Pick(r, []string{"T", "U", "map"})
+			from := h
+			if m == "map" || r.Chance(1, 4) {
+				from = push(Step{K: "derive", P: h, Op: &Op{K: "x_table", Names: []string{lib.Pick(r, []string{"ts", "us"})}}})
+			}
+			f := &Fin{K: lib.Pick(r, []string{"x_find", "x_find", "x_first", "x_take"}), M: m}
+			if m == "map" {
+				f.K = "x_find"
+			}
+			push(Step{K: "finish", P: from, Fin: f})
+		}
+		return in
+	}
+	if r.Chance(5, 6) {
+		cur = push(Step{K: "derive", P: cur, Op: &Op{K: "x_model", Names: []string{lib.Pick(r, []string{"T", "U"})}}})
+	}
+	for k := r.Range(1, 4); k > 0; k-- {
+		cur = push(Step{K: "derive", P: cur, Op: xop()})
+	}
+	h := push(Step{K: "sess", P: cur, Sess: lib.Pick(r, []string{"plain", "plain", "plain", "ctx", "debug"})})
+	hs := []int{h}
+	for k := r.Range(4, 9); k > 0; k-- {
+		from := lib.Pick(r, hs)
+		switch r.Intn(6) {
+		case 0, 1, 2: // a finisher straight from the handle
+			push(Step{K: "finish", P: from, Fin: xfin()})
+		case 3, 4: // a chain, then a finisher
+			c := push(Step{K: "derive", P: from, Op: xop()})
+			if r.Bool() {
+				c = push(Step{K: "derive", P: c, Op: xop()})
+			}
+			push(Step{K: "finish", P: c, Fin: xfin()})
+		default: // a further handle
+			c := push(Step{K: "derive", P: from, Op: xop()})
+			hs = append(hs, push(Step{K: "sess", P: c, Sess: lib.Pick(r, []string{"plain", "ctx", "debug"})}))
+		}
+	}
+	push(Step{K: "finish", P: h, Fin: xfin()})
+	return in
+}
+
 func shape(in Input) string {
 	var sb strings.Builder
 	for _, s := range in.Steps {
 		switch s.K {
 		case "derive":
-			fmt.Fprintf(&sb, "d%d%s,", s.P, s.Op.K[:2])
+			fmt.Fprintf(&sb, "d%d%s,", s.P, (strings.TrimPrefix(s.Op.K, "x_") + "  ")[:2])
 		case "sess":
 			fmt.Fprintf(&sb, "s%d%s,", s.P, s.Sess[:1])
 		case "finish":
-			fmt.Fprintf(&sb, "f%d%s,", s.P, s.Fin.K[:2])
+			fmt.Fprintf(&sb, "f%d%s%s,", s.P, (strings.TrimPrefix(s.Fin.K, "x_") + "  ")[:2], s.Fin.M)
 		default:
 			fmt.Fprintf(&sb, "a%d,", s.P)
 		}
@@ -1067,7 +1416,12 @@ func main() {
 	out.PerFile = 40
 
 	add := func(kind string, in Input) {
-		o := runHistory(in)
+		var o Obs
+		if in.Exec {
+			o = runExec(in)
+		} else {
+			o = runHistory(in)
+		}
 		out.Add(lib.Case{Term: term(in, o), JSON: map[string]interface{}{"input": in, "observed": o},
 			Sig: sig(in), Kind: kind, Shape: shape(in), Nontriv: nontrivial(in)})
 		out.Count("steps", fmt.Sprint(len(in.Steps)/10*10))
@@ -1138,6 +1492,17 @@ func main() {
 	}
 	for i := 0; i < npat; i++ {
 		add("pattern", genPattern(r.Fork()))
+	}
+	// executed stream (real SQLite through the recording driver; specification only)
+	nexec := 160
+	if a.Tier == "thorough" {
+		nexec = 1500
+	}
+	if a.N > 0 {
+		nexec = a.N / 3
+	}
+	for i := 0; i < nexec; i++ {
+		add("exec", genExec(r.Fork()))
 	}
 	out.Extra["rule"] = "case = a history of 20..60 steps over a tree of handles (Open, Session{}, Session{NewDB}, WithContext, Debug, Begin) on DummyDialector in DryRun: chain methods Where(string|map)/Or/Not/Having/Group/Order/Clauses(OrderBy,Returning,Locking,OnConflict,From)/Limit/Offset/Select(string|[]string)/Distinct/Omit/Joins/Scopes/Unscoped/Table/Model, finishers Find/First/Take/Update/Delete from any live handle at any time; only handles from Open/Session/WithContext/Debug/Begin are reused, a chain result is continued linearly; edge stream: caller slices with spare capacity, empty/nil Returning; pattern stream: k merges of one appendable clause -> Session/WithContext/Debug/Begin -> two children add one more each -> both finish; corpus: the fixed Returning / caller-slice / group-condition defects; distinct = distinct step-kind sequences; non-trivial = a state-carrying reusable handle starts >= 2 chains/finishers and at least one finisher runs"
 	lib.Must(out.Flush())
